@@ -24,6 +24,8 @@ for sid in ids:
     finally:
         subprocess.run(["git", "-C", "/repo", "checkout", "--", "."])
         subprocess.run(["git", "-C", "/repo", "clean", "-fdq"])
+        # the seeded run rewrote the evidence file: restore the committed one
+        subprocess.run(["git", "-C", ROOT, "checkout", "--", "evidence/%s.json" % prop])
         fcntl.flock(lockf, fcntl.LOCK_UN)
     line = next((l for l in r.stdout.splitlines() if l.startswith("VIOLATION")), "")
     ok = r.returncode == want
